@@ -66,6 +66,13 @@ func (fhs *FastHotStuff) VoteRule(view hotstuff.View, proposal hotstuff.ProposeM
 	// The base implementation verifies both regular QCs and AggregateQCs, and asserts that the QC embedded in the
 	// block is the same as the highQC found in the aggregateQC.
 	if proposal.AggregateQC != nil {
+		// The aggregate QC must be the one that ended the previous view. An older aggregate QC is
+		// genuine too, but its high QC has long been superseded: accepting it would let a leader
+		// fork the chain below blocks that are already committed.
+		if proposal.AggregateQC.View()+1 != proposal.Block.View() {
+			fhs.logger.Info("VoteRule: aggregate QC is not from the previous view")
+			return false
+		}
 		hqcBlock, ok := fhs.blockchain.Get(proposal.Block.QuorumCert().BlockHash())
 		return ok && fhs.blockchain.Extends(proposal.Block, hqcBlock)
 	}
